@@ -9,6 +9,7 @@ package prefetchx
 import (
 	"fmt"
 	"os"
+	"path"
 	"runtime/debug"
 	"strings"
 	"time"
@@ -98,6 +99,11 @@ func (c *Case) dirCache() bool { return c.HTTPCache != "memory" || c.FSCache != 
 
 var names = []string{"a", "b", "c", "d/e", "d/f", "d/g/h", "k", "m/n", "z"}
 
+// reserved base names in SUBDIRECTORIES: there they are ordinary regular files (the TOC, the landmarks and whiteouts
+// of the root have their special meaning only at the root / for the overlay), to be prefetched, fetched and read like any other
+var reservedNames = []string{"d/stargz.index.json", "m/stargz.index.json", "d/g/stargz.index.json", "d/.prefetch.landmark",
+	"m/.no.prefetch.landmark", "d/g/.wh.gone", "m/.wh..wh..opq", "d/.wh.stargz.index.json"}
+
 func gen(r *hx.Rng, stores []string) Case {
 	c := Case{Store: stores[r.Intn(len(stores))]}
 	// files
@@ -106,6 +112,15 @@ func gen(r *hx.Rng, stores []string) Case {
 	for i := len(perm) - 1; i > 0; i-- {
 		j := r.Intn(i + 1)
 		perm[i], perm[j] = perm[j], perm[i]
+	}
+	if r.Chance(1, 3) {
+		// one or two files with a reserved base name below the root
+		for k := 0; k < r.Range(1, 2) && k < nf; k++ {
+			perm[k] = reservedNames[r.Intn(len(reservedNames))]
+		}
+		if nf > 1 && perm[0] == perm[1] {
+			perm[1] = "a"
+		}
 	}
 	dirs := map[string]bool{}
 	var regs []string
@@ -281,7 +296,11 @@ func genSecondPhase(r *hx.Rng, c *Case) {
 	if r.Chance(1, 3) {
 		ops = append(ops, Op{Op: "pf"})
 	}
-	ops = append(ops, Op{Op: "bg", N: r.Range(1, 2), Intf: r.Chance(1, 4)}, Op{Op: "off"}, Op{Op: "readall", Buf: []int{0, 777, 4096}[r.Intn(3)]})
+	ops = append(ops, Op{Op: "bg", N: r.Range(1, 2), Intf: r.Chance(1, 4)})
+	if r.Bool() {
+		ops = append(ops, Op{Op: "refresh"})
+	}
+	ops = append(ops, Op{Op: "off"}, Op{Op: "readall", Buf: []int{0, 777, 4096}[r.Intn(3)]})
 	c.Ops = ops
 }
 
@@ -348,7 +367,11 @@ func genFS(r *hx.Rng, c *Case) {
 		ops = append(ops, Op{Op: "pf", N: many()}, Op{Op: "wait"})
 	}
 	if c.NoBG && r.Chance(1, 2) {
-		ops = append(ops, Op{Op: "bg", N: many()}, Op{Op: "off"}, Op{Op: "readall"}, Op{Op: "check"})
+		ops = append(ops, Op{Op: "bg", N: many()})
+		if r.Bool() {
+			ops = append(ops, Op{Op: "refresh"})
+		}
+		ops = append(ops, Op{Op: "off"}, Op{Op: "readall"}, Op{Op: "check"})
 	} else if r.Chance(1, 2) {
 		ops = append(ops, Op{Op: "off"}, Op{Op: "readall"})
 	}
@@ -421,7 +444,10 @@ func genOps(r *hx.Rng, c *Case) []Op {
 	if r.Chance(1, 4) {
 		ops = append(ops, Op{Op: "pf", N: many()})
 	}
-	if r.Chance(1, 6) {
+	if r.Chance(1, 4) && pf.Fault != "fail" && !held {
+		// cold compressed-blob cache: what prefetch did not put into the chunk cache has to come from the registry
+		ops = append(ops, Op{Op: "refresh"}, Op{Op: "off"}, Op{Op: "readprio", Buf: buf()}, Op{Op: "on"})
+	} else if r.Chance(1, 6) {
 		ops = append(ops, Op{Op: "off"}, Op{Op: "readprio", Buf: buf()}, Op{Op: "on"})
 	} else if r.Chance(4, 5) {
 		ops = append(ops, Op{Op: "readprio", Buf: buf()})
@@ -456,6 +482,9 @@ func genOps(r *hx.Rng, c *Case) []Op {
 			ops = append(ops, Op{Op: "settle"})
 		}
 		if r.Chance(2, 3) {
+			if !held && r.Chance(1, 2) {
+				ops = append(ops, Op{Op: "refresh"})
+			}
 			ops = append(ops, Op{Op: "off"}, Op{Op: "readall", Buf: buf()})
 			if r.Chance(1, 3) {
 				ops = append(ops, Op{Op: "wait"})
@@ -559,6 +588,8 @@ func coqCase(c *Case, obs *Obs) string {
 			ops[i] = "SHold"
 		case "settle":
 			ops[i] = "SSettle"
+		case "refresh":
+			ops[i] = "SRefresh"
 		case "off":
 			ops[i] = "SOff"
 		case "on":
@@ -668,6 +699,11 @@ func Main(stores []string, factories map[string]StoreFactory) {
 		}
 		if c.BlobPCS > c.BlobCS {
 			ctx.Count("cfg.pcs>cs")
+		}
+		for _, f := range c.Files {
+			if b := path.Base(f.Name); f.Kind == "reg" && strings.Contains(f.Name, "/") && (b == "stargz.index.json" || strings.HasPrefix(b, ".wh.") || strings.HasSuffix(b, ".landmark")) {
+				ctx.Count("files.reserved-name-in-subdir")
+			}
 		}
 		nontrivial := false
 		kinds := map[string]bool{}
@@ -822,6 +858,22 @@ func corpus() []Case {
 	c = base()
 	c.FS, c.NoBG, c.NoPrefetch = true, true, true
 	c.Ops = []Op{{Op: "mount"}, {Op: "check"}, {Op: "readprio"}, {Op: "bg"}, {Op: "off"}, {Op: "readall"}}
+	out = append(out, c)
+	// reserved base names below the root are ordinary files: prioritized ones are prefetched, all are fetched in the
+	// background; the reads go through a cold compressed-blob cache (Refresh) with the registry off
+	c = base()
+	c.Files = append(c.Files, FileSpec{Name: "d/stargz.index.json", Kind: "reg", Size: 7000}, FileSpec{Name: "m/", Kind: "dir"},
+		FileSpec{Name: "m/.prefetch.landmark", Kind: "reg", Size: 300}, FileSpec{Name: "m/.wh.gone", Kind: "reg", Size: 0},
+		FileSpec{Name: "d/.no.prefetch.landmark", Kind: "reg", Size: 5000})
+	c.Prio = []string{"d/stargz.index.json", "a", "m/.prefetch.landmark"}
+	c.Ops = []Op{{Op: "pf"}, {Op: "refresh"}, {Op: "off"}, {Op: "readprio"}, {Op: "on"}, {Op: "bg"}, {Op: "refresh"}, {Op: "off"}, {Op: "readall", Buf: 777}}
+	out = append(out, c)
+	c = base()
+	c.LM, c.Prio = "noprefetch", nil
+	c.Files = append(c.Files, FileSpec{Name: "d/g/", Kind: "dir"}, FileSpec{Name: "d/g/stargz.index.json", Kind: "reg", Size: 12000},
+		FileSpec{Name: "d/.wh..wh..opq", Kind: "reg", Size: 0}, FileSpec{Name: "d/g/.prefetch.landmark", Kind: "reg", Size: 1})
+	c.FS, c.FSCache, c.LRU, c.SyncAdd = true, "dir", 2, true
+	c.Ops = []Op{{Op: "mount"}, {Op: "check"}, {Op: "refresh"}, {Op: "off"}, {Op: "readall"}}
 	out = append(out, c)
 	// prefetch fails in its second phase (no landmark, the configured size ends inside "a"): the registry serves the
 	// download and fails behind it; it recovers, the background fetch succeeds, and then everything must read offline
